@@ -110,6 +110,12 @@ class History:
             out = ("ID", res)
         except RuntimeError:
             out = ("FAILED", None)
+        except Exception as e:  # noqa: BLE001 — anything else is not an outcome of get_id: judged by the oracle, the history goes on
+            out = ("CRASHED:" + type(e).__name__, None)
+            try:
+                self.mgr.conn.rollback()
+            except Exception:  # noqa: BLE001
+                pass
         self.force_collision = 0.0
         post = dump(self.mgr.conn, self.idm, self.toks)
         # infer the choice
@@ -128,7 +134,7 @@ class History:
         tiestr = ",".join(f"{k}={v}" for k, v in sorted(ties.items())) or "-"
         samples = ",".join(str(s) for s in self.samples) or "-"
         req = f"idm.get {show(pre)} {self.toks.tok(desc)} {name} {sub.begin} {sub.end} {now} {self.max_ids} {samples} {hit} {free} {tiestr}"
-        exp = f"ID {out[1]} {show(post)}" if out[0] == "ID" else f"FAILED {show(post)}"
+        exp = f"ID {out[1]} {show(post)}" if out[0] == "ID" else f"{out[0]} {show(post)}"
         self.steps.append({"op": "get_id", "desc": desc, "space": name, "sub": (sub.begin, sub.end), "now": now, "pre": pre, "post": post,
                            "result": out, "samples": list(self.samples), "req": req, "expect": exp, "max_ids": self.max_ids})
         self.state = post
@@ -240,6 +246,21 @@ def random_history(ctx, tup, idx, cov, large=False):
             h.mgr.max_ids_per_subspace = sizes[0]
         npool = max(2, min(12, int(1.5 * min(min(sizes), 8)) + 1))
         descrs = [f"d{i}" for i in range(npool)]
+        if not large and sizes[0] <= 12 and rng.random() < 0.25:
+            # fill - free - request: every id of a small subspace has been assigned at some time, then some are freed
+            # (deleted, cleaned up), then new descriptions arrive: they must get the freed ids, nothing is displaced
+            sp, sub = pairs[0]
+            for i in range(sizes[0]):
+                h.op_get(f"fill{i}", sp, sub)
+            for _ in range(rng.randrange(1, 4)):
+                present = [r[0] for r in h.state.get(sp_name(sp), [])]
+                if rng.random() < 0.3:
+                    h.op_cleanup(sp, sub, rng.choice([0, 1, max(0, sizes[0] - 2)]))
+                elif present:
+                    h.op_del(rng.choice(present))
+                h.op_get(f"new{rng.randrange(100)}", sp, sub)
+                if rng.random() < 0.5:
+                    h.op_query(sp, sub)
         n_ops = rng.randrange(10, ctx.pick(45, 120))
         for _ in range(n_ops):
             sp, sub = rng.choice(pairs)
